@@ -108,7 +108,11 @@ func runC12(c *Ctx) {
 			}
 		}
 
-		c.Check(okErr && nErr == 2, "R12.1", FuncName(dec)+" :: both rejections return ErrInvalidWatchBookmark", fpos(dec), "2 rejections", fmt.Sprintf("%d rejections, class ok=%v", nErr, okErr))
+		c.Check(okErr && nErr >= 1, "R12.1", FuncName(dec)+" :: both rejections return ErrInvalidWatchBookmark", fpos(dec), fmt.Sprintf("%d rejecting return(s)", nErr), fmt.Sprintf("%d rejections, class ok=%v", nErr, okErr))
+		// ... and there are two of them: acceptance needs both tests
+		c.MustCut("R12.1", "accept ⊣ {len(bookmark) == 16}", dec, ReturnsNilConst(1), CutSpec{Edges: p.LinEdge(nil, "eq:+1*call:builtin.len(param#0)-16")}, 1)
+		c.MustCut("R12.1", "accept ⊣ {cookie matches}", dec, ReturnsNilConst(1),
+			CutSpec{Edges: FactEdge("true(call:slices.Equal(slice(param#0,<nil>,const:8),call:dyn:*global:" + pkgInmem + ".bookmarkCookie()))")}, 1)
 
 		ok := false
 
@@ -148,7 +152,7 @@ func runC12(c *Ctx) {
 
 		skip := func(in ssa.Instruction) bool {
 			st, ok := in.(*ssa.Store)
-			if !ok || !Glob("var:pos", p.Desc(st.Addr)) {
+			if !ok || !Glob("var:int64", p.Desc(st.Addr)) {
 				return false
 			}
 			// the increment that follows a successful decode: pos = decoded + 1 (block-local forwarding shows the decoded value)
@@ -161,10 +165,10 @@ func runC12(c *Ctx) {
 			"non-negative":       lower,
 		}, al)
 		c.MustCut("R12.2", "accept path ⊣ {decode err == nil}", f, skip, CutSpec{Edges: FactEdge("nil(call:" + pkgInmem + ".decodeBookmark(*)#1)")}, 1)
-		c.MustCut("R12.2", "decodeBookmark ⊣ {StartFromBookmark != nil}", f, p.CallTo(pkgInmem+".decodeBookmark"), CutSpec{Edges: FactEdge("nonnil(*var:options.StartFromBookmark)")}, 1)
+		c.MustCut("R12.2", "decodeBookmark ⊣ {StartFromBookmark != nil}", f, p.CallTo(pkgInmem+".decodeBookmark"), CutSpec{Edges: FactEdge("nonnil(*var:pkg/state.Watch*Options.StartFromBookmark)")}, 1)
 
 		dcalls := p.Calls(f, pkgInmem+".decodeBookmark")
-		c.Check(len(dcalls) == 1 && p.ArgDesc(dcalls[0], 0) == "*var:options.StartFromBookmark", "R12.2", FuncName(f)+" :: decodes the requested bookmark", fpos(f), "yes", "decodeBookmark argument: "+descOfFirst(p, dcalls, 0))
+		c.Check(len(dcalls) == 1 && Glob("*var:pkg/state.Watch*Options.StartFromBookmark", p.ArgDesc(dcalls[0], 0)), "R12.2", FuncName(f)+" :: decodes the requested bookmark", fpos(f), "yes", "decodeBookmark argument: "+descOfFirst(p, dcalls, 0))
 		c.errPropagates("R12.2", f, 1, pkgInmem+".decodeBookmark")
 
 		isGo := func(in ssa.Instruction) bool { _, ok := in.(*ssa.Go); return ok }
@@ -182,51 +186,77 @@ func runC12(c *Ctx) {
 
 		// goroutines start only after the range guard when a bookmark was given
 		c.MustCut("R12.2", "go ⊣ {no bookmark, accepted bookmark, tail mode (exclusive with bookmark by R12.4)}", f, isGo,
-			CutSpec{Nodes: skip, Edges: OrEdge(FactEdge("nil(*var:options.StartFromBookmark)"), p.LinEdge(al, "le:-1*T+1"))}, 2)
+			CutSpec{Nodes: skip, Edges: OrEdge(FactEdge("nil(*var:pkg/state.Watch*Options.StartFromBookmark)"), p.LinEdge(al, "le:-1*T+1"))}, 2)
 
 		// ---------- R12.4 tail bounds & option exclusivity
 		c.Rule("R12.4", "E6", "tail: kind n ≤ capacity − gap, pos = max(writePos − n, 0); single walks back while pos > max(writePos−capacity+gap, 0); tail∧bookmark and bootstrap∧(tail∨bookmark) rejected", 8)
 
-		c.MustCut("R12.4", "go ⊣ {not (tail ∧ bookmark)}", f, isGo, CutSpec{Edges: OrEdge(p.LinEdge(al, "le:+1*T"), FactEdge("nil(*var:options.StartFromBookmark)"))}, 2)
+		c.MustCut("R12.4", "go ⊣ {not (tail ∧ bookmark)}", f, isGo, CutSpec{Edges: OrEdge(p.LinEdge(al, "le:+1*T"), FactEdge("nil(*var:pkg/state.Watch*Options.StartFromBookmark)"))}, 2)
 
 		if name == "WatchAll" {
-			c.MustCut("R12.4", "go ⊣ {not (bootstrap ∧ tail)}", f, isGo, CutSpec{Edges: OrEdge(p.LinEdge(al, "le:+1*T"), FactEdge("false(*var:options.BootstrapContents)"))}, 2)
-			c.MustCut("R12.4", "go ⊣ {not (bootstrap ∧ bookmark)}", f, isGo, CutSpec{Edges: FactEdge("nil(*var:options.StartFromBookmark)", "false(*var:options.BootstrapContents)")}, 2)
+			c.MustCut("R12.4", "go ⊣ {not (bootstrap ∧ tail)}", f, isGo, CutSpec{Edges: OrEdge(p.LinEdge(al, "le:+1*T"), FactEdge("false(*var:pkg/state.Watch*Options.BootstrapContents)"))}, 2)
+			c.MustCut("R12.4", "go ⊣ {not (bootstrap ∧ bookmark)}", f, isGo, CutSpec{Edges: FactEdge("nil(*var:pkg/state.Watch*Options.StartFromBookmark)", "false(*var:pkg/state.Watch*Options.BootstrapContents)")}, 2)
 
-			// clamp: store TailEvents := C - G behind T > C - G
-			clamp := func(in ssa.Instruction) bool {
-				return StoreToField("WatchKindOptions", "TailEvents")(in) && p.LinOf(in.(*ssa.Store).Val, al).String() == "+1*C-1*G"
-			}
-			c.MustCut("R12.4", "TailEvents := capacity − gap ⊣ {TailEvents > capacity − gap}", f, clamp, CutSpec{Edges: p.LinEdge(al, "le:+1*C-1*G-1*T+1")}, 1)
-
-			back := func(in ssa.Instruction) bool {
+			// accepted forms:
+			//   A  if T > C−G { T = C−G }; pos −= T; if pos < 0 { pos = 0 }
+			//   B  T = min(T, C−G); pos = max(pos − T, 0)
+			tailStore := StoreToField("WatchKindOptions", "TailEvents")
+			posStore := func(in ssa.Instruction) bool {
 				st, ok := in.(*ssa.Store)
 
-				return ok && Glob("var:pos", p.Desc(st.Addr)) && p.LinOf(st.Val, al).String() == "+1*P-1*T"
+				return ok && Glob("var:int64", p.Desc(st.Addr))
 			}
-			// the subtraction uses the (possibly clamped) value: from the clamp test's fail edge or the clamp store
-			c.MustCut("R12.4", "pos −= TailEvents ⊣ {TailEvents ≤ capacity − gap, clamped}", f, back, CutSpec{Nodes: clamp, Edges: p.LinEdge(al, "le:-1*C+1*G+1*T")}, 1)
-			c.MustCut("R12.4", "pos −= TailEvents ⊣ {TailEvents > 0}", f, back, CutSpec{Edges: p.LinEdge(al, "le:-1*T+1")}, 1)
+			linIs := func(sel InstrPred, want ...string) InstrPred {
+				return func(in ssa.Instruction) bool {
+					if !sel(in) {
+						return false
+					}
 
-			zero := func(in ssa.Instruction) bool {
-				st, ok := in.(*ssa.Store)
+					got := p.LinOf(in.(*ssa.Store).Val, al).String()
+					for _, w := range want {
+						if got == w {
+							return true
+						}
+					}
 
-				return ok && Glob("var:pos", p.Desc(st.Addr)) && p.LinOf(st.Val, al).String() == "+0"
+					return false
+				}
 			}
-			// (the test right after `pos -= n` sees the just-stored value pos − n through store→load forwarding)
-			c.MustCut("R12.4", "pos = 0 ⊣ {pos − n < 0}", f, zero, CutSpec{Edges: p.LinEdge(al, "le:+1*P-1*T+1")}, 1)
-			// after the subtraction the floor test is passed before any goroutine starts
-			c.MustFollow("R12.4", "after pos −= n the floor test precedes the goroutines", f, back, isGo, CutSpec{Edges: p.LinEdge(al, "le:+1*P-1*T+1", "le:-1*P+1*T")}, 1)
+			clampB := linIs(tailStore, "+1*min(+1*C-1*G,+1*T)")
+			backB := linIs(posStore, "+1*max(+0,+1*P-1*T)", "+1*max(+0,+1*P-1*min(+1*C-1*G,+1*T))")
+
+			if len(Find(f, clampB)) > 0 || len(Find(f, backB)) > 0 {
+				c.Check(len(Find(f, clampB)) == 1 && len(Find(f, linIs(tailStore, "+1*C-1*G"))) == 0, "R12.4", FuncName(f)+" :: TailEvents := capacity − gap ⊣ {TailEvents > capacity − gap}", fpos(f), "TailEvents = min(TailEvents, capacity − gap)", "mixed clamp forms")
+				c.MustCut("R12.4", "pos −= TailEvents ⊣ {TailEvents ≤ capacity − gap, clamped}", f, backB, CutSpec{Nodes: clampB}, 1)
+				c.MustCut("R12.4", "pos −= TailEvents ⊣ {TailEvents > 0}", f, backB, CutSpec{Edges: p.LinEdge(al, "le:-1*T+1")}, 1)
+				c.Check(len(Find(f, linIs(posStore, "+1*P-1*T"))) == 0, "R12.4", FuncName(f)+" :: pos = 0 ⊣ {pos − n < 0}", fpos(f), "pos = max(pos − n, 0)", "an unfloored pos − n store exists next to the max form")
+				c.OK("R12.4", FuncName(f)+" :: after pos −= n the floor test precedes the goroutines", fpos(f), "floored by max(pos − n, 0)")
+			} else {
+				// clamp: store TailEvents := C - G behind T > C - G
+				clamp := linIs(tailStore, "+1*C-1*G")
+				c.MustCut("R12.4", "TailEvents := capacity − gap ⊣ {TailEvents > capacity − gap}", f, clamp, CutSpec{Edges: p.LinEdge(al, "le:+1*C-1*G-1*T+1")}, 1)
+
+				back := linIs(posStore, "+1*P-1*T")
+				// the subtraction uses the (possibly clamped) value: from the clamp test's fail edge or the clamp store
+				c.MustCut("R12.4", "pos −= TailEvents ⊣ {TailEvents ≤ capacity − gap, clamped}", f, back, CutSpec{Nodes: clamp, Edges: p.LinEdge(al, "le:-1*C+1*G+1*T")}, 1)
+				c.MustCut("R12.4", "pos −= TailEvents ⊣ {TailEvents > 0}", f, back, CutSpec{Edges: p.LinEdge(al, "le:-1*T+1")}, 1)
+
+				zero := linIs(posStore, "+0")
+				// (the test right after `pos -= n` sees the just-stored value pos − n through store→load forwarding)
+				c.MustCut("R12.4", "pos = 0 ⊣ {pos − n < 0}", f, zero, CutSpec{Edges: p.LinEdge(al, "le:+1*P-1*T+1")}, 1)
+				// after the subtraction the floor test is passed before any goroutine starts
+				c.MustFollow("R12.4", "after pos −= n the floor test precedes the goroutines", f, back, isGo, CutSpec{Edges: p.LinEdge(al, "le:+1*P-1*T+1", "le:-1*P+1*T")}, 1)
+			}
 		} else {
 			facts := strings.Join(p.LinFactsOf(f, al), " ")
-			c.Check(strings.Contains(facts, "le:-1*P+1*max(-1*C+1*G+1*W,+0)+1"), "R12.4", FuncName(f)+" :: walk back only while pos > max(writePos − capacity + gap, 0)", fpos(f), "loop guard present", "loop guard normal form not found among: "+short(facts, 300))
+			c.Check(strings.Contains(facts, "le:-1*P+1*max(+0,-1*C+1*G+1*W)+1"), "R12.4", FuncName(f)+" :: walk back only while pos > max(writePos − capacity + gap, 0)", fpos(f), "loop guard present", "loop guard normal form not found among: "+short(facts, 300))
 
 			dec1 := func(in ssa.Instruction) bool {
 				st, ok := in.(*ssa.Store)
 
-				return ok && Glob("var:pos", p.Desc(st.Addr)) && p.LinOf(st.Val, al).String() == "+1*P-1"
+				return ok && Glob("var:int64", p.Desc(st.Addr)) && p.LinOf(st.Val, al).String() == "+1*P-1"
 			}
-			c.MustCut("R12.4", "pos-- ⊣ {pos > minPos}", f, dec1, CutSpec{Edges: p.LinEdge(al, "le:-1*P+1*max(-1*C+1*G+1*W,+0)+1")}, 1)
+			c.MustCut("R12.4", "pos-- ⊣ {pos > minPos}", f, dec1, CutSpec{Edges: p.LinEdge(al, "le:-1*P+1*max(+0,-1*C+1*G+1*W)+1")}, 1)
 			c.MustCut("R12.4", "pos-- ⊣ {TailEvents > 0}", f, dec1, CutSpec{Edges: p.LinEdge(al, "le:-1*T+1")}, 1)
 
 			// counted only for matching IDs, reading the slot just before pos
@@ -249,25 +279,25 @@ func runC12(c *Ctx) {
 				sendInit := func(in ssa.Instruction) bool {
 					call, ok := in.(ssa.CallInstruction)
 
-					return ok && p.CalleeName(call) == gSend && Glob("*free:var:initialEvent", p.ArgDesc(call, 2))
+					return ok && p.CalleeName(call) == gSend && Glob("*free:var:pkg/state.Event", p.ArgDesc(call, 2))
 				}
 				c.MustCut("R12.5", "send(initial event) ⊣ {TailEvents ≤ 0}", del, sendInit, CutSpec{Edges: p.LinEdge(al, "le:+1*T")}, 1)
-				c.MustCut("R12.5", "send(initial event) ⊣ {no bookmark}", del, sendInit, CutSpec{Edges: FactEdge("nil(*free:var:options.StartFromBookmark)")}, 1)
+				c.MustCut("R12.5", "send(initial event) ⊣ {no bookmark}", del, sendInit, CutSpec{Edges: FactEdge("nil(*free:var:pkg/state.Watch*Options.StartFromBookmark)")}, 1)
 			} else {
 				// bootstrap list is only populated under BootstrapContents, which excludes tail/bookmark (R12.4)
 				c.MustCut("R12.5", "bootstrapList filled ⊣ {BootstrapContents}", f, func(in ssa.Instruction) bool {
 					st, ok := in.(*ssa.Store)
 
-					return ok && Glob("var:bootstrapList", p.Desc(st.Addr)) && !isNilConst(Fwd(st.Val))
-				}, CutSpec{Edges: FactEdge("true(*var:options.BootstrapContents)")}, 1)
+					return ok && Glob("var:[]pkg/resource.Resource", p.Desc(st.Addr)) && !isNilConst(Fwd(st.Val))
+				}, CutSpec{Edges: FactEdge("true(*var:pkg/state.Watch*Options.BootstrapContents)")}, 1)
 				c.MustCut("R12.5", "bootstrapList filled ⊣ {no tail}", f, func(in ssa.Instruction) bool {
 					st, ok := in.(*ssa.Store)
 
-					return ok && Glob("var:bootstrapList", p.Desc(st.Addr)) && !isNilConst(Fwd(st.Val))
+					return ok && Glob("var:[]pkg/resource.Resource", p.Desc(st.Addr)) && !isNilConst(Fwd(st.Val))
 				}, CutSpec{Edges: p.LinEdge(al, "le:+1*T")}, 1)
 				c.MustCut("R12.5", "Bootstrapped event ⊣ {BootstrapContents}", del, func(in ssa.Instruction) bool {
 					return StoreToField("Event", "Type")(in) && p.Desc(in.(*ssa.Store).Val) == p.ConstVal(pkgState, "Bootstrapped")
-				}, CutSpec{Edges: FactEdge("true(*free:var:options.BootstrapContents)")}, 1)
+				}, CutSpec{Edges: FactEdge("true(*free:var:pkg/state.Watch*Options.BootstrapContents)")}, 1)
 			}
 		}
 	}
@@ -305,7 +335,7 @@ func runC12(c *Ctx) {
 				for _, in := range Find(g, StoreToField("Event", "Bookmark")) {
 					n++
 
-					if !Glob("call:"+pkgInmem+".encodeBookmark((*free:var:pos-const:1))", p.Desc(in.(*ssa.Store).Val)) {
+					if !Glob("call:"+pkgInmem+".encodeBookmark((*free:var:int64-const:1))", p.Desc(in.(*ssa.Store).Val)) {
 						ok = false
 					}
 				}
